@@ -17,6 +17,24 @@ func parseStrUint(buf []byte) (u uint) {
 	return
 }
 
+// parseSubSecMillis parses the leading digits of buf as the decimal fraction of a second
+// and returns it in milliseconds (digits beyond the third are truncated).
+func parseSubSecMillis(buf []byte) (ms uint16) {
+	n := 0
+	for i := 0; i < len(buf) && n < 3; i++ {
+		if buf[i] >= '0' && buf[i] <= '9' {
+			ms = ms*10 + uint16(buf[i]-'0')
+			n++
+		} else if n > 0 {
+			break
+		}
+	}
+	for ; n > 0 && n < 3; n++ {
+		ms *= 10
+	}
+	return ms
+}
+
 // trimNULBuffer removes trailing bytes from Buffer
 func trimNULBuffer(buf []byte) []byte {
 	for i := len(buf) - 1; i >= 0; i-- {
